@@ -439,7 +439,7 @@ def add_demo_attrs(prog, rng):
         if t.kind in ("struct",):
             for fn, ft in t.fields:
                 if rng.random() < 0.4:
-                    dv = rng.choice(['"7"', '"1000"', '"true"', '"text with \\"quotes\\""'])
+                    dv = rng.choice(['"7"', "1000", "2.5", '"true"', '"text with \\"quotes\\""'])      # string, integer and float literals are what the attribute parser accepts
                     t.field_attrs.setdefault(fn, []).append('#[diplomat::demo(input(label = "Field %s (%%)", default_value = %s))]' % (fn, dv))
                     n += 1
         for m in t.methods:
